@@ -40,6 +40,13 @@ func (c *RecConn) WriteTo(b []byte, addr net.Addr) (int, error) {
 	return len(b), nil
 }
 
+// SetFail makes the next n writes fail.
+func (c *RecConn) SetFail(n int) {
+	c.mu.Lock()
+	c.FailN = n
+	c.mu.Unlock()
+}
+
 // Take returns and clears the recorded frames.
 func (c *RecConn) Take() [][]byte {
 	c.mu.Lock()
